@@ -2,6 +2,10 @@ package main
 
 import (
 	"fmt"
+	"go/ast"
+	"go/token"
+	"go/types"
+	"path/filepath"
 	"regexp"
 	"strings"
 )
@@ -93,6 +97,59 @@ func checkC26(c *Check) {
 	})
 	c.Ob("tlo/every-combinator-listed-once", "TL.GenerateTLO/combinators", builtin && tail && skips == 1, r.pos(cl.Pos), fmt.Sprintf("builtin names are replaced by their table entry and skipped: %v; every other combinator is appended exactly once at the end of the pass (functions / constructors): %v; skips in the pass: %d", builtin, tail, skips))
 	c.Ob("tlo/combinator-tag-name-type", "TL.GenerateTLO/combinators", lit && idName && typeName, r.pos(cl.Pos), fmt.Sprintf("Name = Crc32(), Flags from the modifiers: %v; Id = Construct.Name: %v; TypeName = Name of the tls.Type found by result/declared type name: %v", lit, idName, typeName))
+	// variable references: a TLO argument introduces variable number `index` (template arguments and `#` fields are
+	// numbered separately from positions in the argument list); every VarNum / ExistVarNum written anywhere in the TLO
+	// generator is such a variable number (a scope entry's index / absoluteIndex, or the loop index over template
+	// arguments), never a position in the field list
+	{
+		nVar, bad := 0, ""
+		for _, name := range sortedKeys(r.funcs) {
+			fi := r.funcs[name]
+			if fi.Decl.Body == nil || filepath.Base(r.co.Fset.Position(fi.Decl.Pos()).Filename) != "tlgen_tlo.go" {
+				continue
+			}
+			info := fi.Pkg.TypesInfo
+			judge := func(field string, v ast.Expr, at token.Pos) {
+				if field != "VarNum" && field != "ExistVarNum" {
+					return
+				}
+				nVar++
+				e := ast.Unparen(v)
+				if call, ok := e.(*ast.CallExpr); ok && len(call.Args) == 1 { // int32(x)
+					e = ast.Unparen(call.Args[0])
+				}
+				ok := false
+				switch x := e.(type) {
+				case *ast.BasicLit:
+					ok = true
+				case *ast.Ident:
+					_, isVar := info.Uses[x].(*types.Var)
+					ok = isVar
+				case *ast.SelectorExpr:
+					ok = x.Sel.Name == "index" || x.Sel.Name == "absoluteIndex"
+				}
+				if !ok && bad == "" {
+					bad = r.pos(at) + ": " + field + " = " + types.ExprString(v)
+				}
+			}
+			ast.Inspect(fi.Decl.Body, func(n ast.Node) bool {
+				switch n := n.(type) {
+				case *ast.KeyValueExpr:
+					if id, ok := n.Key.(*ast.Ident); ok {
+						judge(id.Name, n.Value, n.Pos())
+					}
+				case *ast.AssignStmt:
+					for i, l := range n.Lhs {
+						if sel, ok := l.(*ast.SelectorExpr); ok && i < len(n.Rhs) {
+							judge(sel.Sel.Name, n.Rhs[i], n.Pos())
+						}
+					}
+				}
+				return true
+			})
+		}
+		c.Ob("tlo/variable-references-use-variable-numbers", "tlgen_tlo.go", nVar >= 8 && bad == "", pos, fmt.Sprintf("%d VarNum/ExistVarNum values; first that is not a variable number: %s", nVar, orStr(bad, "—")))
+	}
 	all := localNameRx.ReplaceAllString(flatText(blockText(ir.Body)), "$$")
 	counts := strings.Contains(all, "TypesNum:len($),Types:$,ConstructorNum:len($),Constructors:$,FunctionsNum:len($),Functions:$")
 	c.Ob("tlo/counts-are-list-lengths", "TL.GenerateTLO", counts, pos, "TypesNum/ConstructorNum/FunctionsNum are the lengths of the lists they precede")
